@@ -1345,6 +1345,72 @@ def overlapping_records(run: lib.Run) -> None:
             return
 
 
+def record_sequences(run: lib.Run) -> None:
+    """SEQUENCES of records through ONE DecisionLogger, with and without an ambient request scope (an active trace id of
+    rbacx.logging.context — the audit logger sits next to the trace-id middleware): every order of ≤3 records out of {plain permit,
+    permit with obligations, deny} × scripted draws {0.0, 0.5, 0.999}.  Clauses of C19 judged on EVERY record of the sequence, whatever was
+    logged before it: smart sampling with default rates emits every deny and every permit with obligations; rate 1 emits every record;
+    rate 0 (plain sampling) emits nothing.  A record is identified by its rule id."""
+    import itertools as it
+    try:
+        from rbacx.logging import context as tctx
+    except Exception:  # noqa: BLE001
+        tctx = None
+    kinds = {"permit": ("permit", []), "permit+obl": ("permit", [{"type": "require_mfa", "on": "permit"}]), "deny": ("deny", [])}
+
+    def payload(tag, kind):
+        decision, obl = kinds[kind]
+        return {"env": {"subject": {"id": "u"}, "context": {}}, "decision": decision, "allowed": decision == "permit",
+                "rule_id": tag, "policy_id": "p", "reason": None, "obligations": copy.deepcopy(obl)}
+    configs = [("smart-defaults", {"smart_sampling": True, "sample_rate": 0.25}, lambda kind: True if kind != "permit" else None),
+               ("smart-defaults-rate0", {"smart_sampling": True, "sample_rate": 0.0}, lambda kind: True if kind != "permit" else False),
+               ("rate1", {"sample_rate": 1.0}, lambda kind: True),
+               ("rate0", {"sample_rate": 0.0}, lambda kind: False)]
+    seqs = [s for n in (1, 2, 3) for s in it.product(kinds, repeat=n)]
+    saved_random = dl.random
+    try:
+        for (cname, kwargs, must), scope, draw in it.product(configs, (None, "one-trace", "trace-per-record"), (0.0, 0.5, 0.999)):
+            if scope is not None and tctx is None:
+                continue
+            dl.random = types.SimpleNamespace(random=lambda d=draw: d)
+            for seq in seqs:
+                lg = dl.DecisionLogger(**kwargs)
+                emitted, errors = [], []
+                token = tctx.set_current_trace_id("verif-trace-0") if scope == "one-trace" else None
+                try:
+                    for i, kind in enumerate(seq):
+                        tok_i = tctx.set_current_trace_id(f"verif-trace-{i}") if scope == "trace-per-record" else None
+                        try:
+                            with audit_capture() as cap:
+                                lg.log(payload(f"rec{i}", kind))
+                            emitted.append(sum(1 for r in cap.records if f"rec{i}" in r.getMessage()))
+                        except Exception as e:  # noqa: BLE001
+                            errors.append(f"record {i}: {type(e).__name__}: {e}")
+                            emitted.append(None)
+                        finally:
+                            if tok_i is not None:
+                                tctx.clear_current_trace_id(tok_i)
+                finally:
+                    if token is not None:
+                        tctx.clear_current_trace_id(token)
+                run.evaluations += 1
+                run.count("record-sequences")
+                run.nontrivial.add(f"seq{cname}{scope}{draw}{seq}")
+                wrong = [i for i, kind in enumerate(seq)
+                         if (must(kind) is True and emitted[i] != 1) or (must(kind) is False and emitted[i] != 0)]
+                if errors or wrong:
+                    run.spec_failures.append({"part": "record sequences", "logger": kwargs, "config": cname, "ambient_trace_id": scope,
+                                              "scripted_draw": draw, "sequence": list(seq), "records_emitted": emitted, "errors": errors,
+                                              "wrong_at": wrong,
+                                              "failures": ["one DecisionLogger, records logged one after the other: " + (
+                                                  "smart sampling with default rates did not emit a deny / a permit with obligations" if cname.startswith("smart")
+                                                  else "sampling at rate 1 dropped a record" if cname == "rate1" else "sampling at rate 0 emitted a record")
+                                                  + " (the outcome for a record depends on what was logged before it)"]})
+                    return
+    finally:
+        dl.random = saved_random
+
+
 def check(run: lib.Run, audit: dict) -> int:
     run.rule = ("exhaustive: int() literals of length ≤4/≤5 over 10 characters; every path of ≤2 (thorough ≤3) segments over a "
                 "16-segment alphabet (keys, indices in/out of range, negative, garbage) × 16 objects through _set_by_path; every "
@@ -1406,6 +1472,7 @@ def check(run: lib.Run, audit: dict) -> int:
     keep: list[dict] = []
     run_cases(run, defaults, keep=keep)
     overlapping_records(run)
+    record_sequences(run)
     if (run.disagreements or not ok_tr or not ok_lg or not ok_lc) and not run.spec_failures:
         run_cases(run, defaults, scale=5)   # correspondence / the translation tie broke: widen the search for a failing input
     try:
@@ -1413,12 +1480,13 @@ def check(run: lib.Run, audit: dict) -> int:
     except Exception as e:  # noqa: BLE001
         run.notes.append(f"coverage measurement failed: {e}")
     violations = []
-    if run.spec_failures and all(f.get("part") == "overlapping records" for f in run.spec_failures):
-        path = run.write_replay("spec", {"what": "two decisions reported to one DecisionLogger at the same time", "failures": run.spec_failures[0]["failures"],
+    if run.spec_failures and all(f.get("part") in ("overlapping records", "record sequences") for f in run.spec_failures):
+        path = run.write_replay("spec", {"what": "two decisions reported to one DecisionLogger at the same time" if run.spec_failures[0]["part"] == "overlapping records"
+                                         else "a sequence of decisions reported to one DecisionLogger", "failures": run.spec_failures[0]["failures"],
                                          "case": run.spec_failures[0]})
         violations.append((path, True))
     elif run.spec_failures:
-        first = next(f for f in run.spec_failures if f.get("part") != "overlapping records")
+        first = next(f for f in run.spec_failures if f.get("part") not in ("overlapping records", "record sequences"))
         small = shrink(first["case"], defaults)
         (_, out, ans), = evaluate([small], defaults)
         _, fails, _, _ = judge(small, out, ans)
@@ -1487,6 +1555,12 @@ def replay(run: lib.Run, audit: dict, path: str) -> int:
         overlapping_records(run)
         now = [f for f in run.spec_failures if f.get("part") == "overlapping records"]
         print("now:", json.dumps(now[0], default=str) if now else "both records are emitted, once each, redacted")
+        print("recorded:", json.dumps(c, default=str))
+        return 1 if now else 0
+    if c.get("part") == "record sequences":
+        record_sequences(run)
+        now = [f for f in run.spec_failures if f.get("part") == "record sequences"]
+        print("now:", json.dumps(now[0], default=str) if now else "every record of every sequence is emitted / dropped as C19 says")
         print("recorded:", json.dumps(c, default=str))
         return 1 if now else 0
     defaults = copy.deepcopy(dl._DEFAULT_REDACTIONS)
